@@ -1,6 +1,7 @@
 (* C14  A run resumed from persisted state continues exactly like the uninterrupted run (partial: serialisation - jsonpickle, pickle -
    and the strategy context / universe / broker order book are runtime and compared by the split runs only). *)
 From RQ Require Import Model.Num Model.Calendar Model.Position Model.Account Model.AccountRun Model.EventLoop Model.Persist
+From RQ Require Import Model.Globals Model.PersistKeys Gen.PersistKeys.
      Proofs.NumFacts Proofs.PersistFacts.
 Open Scope Z_scope.
 
@@ -44,6 +45,16 @@ Example C14_example :
   In (PSettlement 20200102) (snd (xrun (fst (xfold fresh (daily_events [20200102]))) (daily_events [20200103]) 20200103)).
 Proof. split; vm_compute; [reflexivity | auto]. Qed.
 
+(* Tie A: what get_state writes and set_state reads back, regenerated from the source on every run (Gen/PersistKeys.v): every key the
+   persist model relies on is written and read back, nothing is filtered out, and every scalar field goes back into the very attribute
+   it was read from (a key written from a derived view - the public start_date is the CURRENT run's - would restore something else) *)
+Theorem C14_code_state_records :
+  forallb (fun ck => forallb (fun k => mem_str k (keys_of (fst ck) written)) (snd ck)) required_keys = true /\
+  forallb (fun ck => forallb (fun k => mem_str k (keys_of (fst ck) read_back)) (snd ck)) required_keys = true /\
+  forallb (fun c => negb (flag_of c filtered)) unfiltered_classes = true /\
+  forallb (fun ck => forallb (fun k => same_field (fst ck) k written_from restored_to) (snd ck)) round_trip_fields = true.
+Proof. repeat split; [exact required_keys_written|exact required_keys_read_back|exact nothing_filtered_out|exact fields_round_trip]. Qed.
+
 Print Assumptions C14_position_roundtrip.
 Print Assumptions C14_account_roundtrip.
 Print Assumptions C14_account_continuation.
@@ -52,3 +63,4 @@ Print Assumptions C14_split_at_end_of_day.
 Print Assumptions C14_split_at_normal_exit.
 Print Assumptions C14_fresh_run_is_lifecycle_run.
 Print Assumptions C14_report_series.
+Print Assumptions C14_code_state_records.
